@@ -149,14 +149,12 @@ PointProblems(ev) ==
 
 ---------------------------------------------------------------------------
 (* C05: the verdict *)
-\* the tableau path maps its answer back to the model by name: a model variable named like one of its
-\* own columns (slack $sl_k, surplus $su_k, artificial $a_k, the halves $px / $mx of a free variable x)
-\* cannot be told from them, and the conversion to standard form refuses such a model
+\* the tableau path maps its answer back to the model by name: a model variable named like a slack,
+\* surplus or artificial column ($sl_k, $su_k, $a_k) cannot be told from one, and the conversion to standard
+\* form refuses such a model.  (The halves of a split free variable x are called $p|x and $m|x, which no
+\* model variable can be called: variables named $px, $mx or $max_0 next to a free ax_0 are ordinary variables.)
 ReservedNames(ev) == UNION {{"$sl_" \o ToString(k), "$su_" \o ToString(k), "$a_" \o ToString(k)} : k \in 0..12}
-                     \cup UNION {{"$p" \o ev.vars[i].name, "$m" \o ev.vars[i].name} : i \in {j \in 1..NV(ev) : ev.vars[j].kind = "real"}}
-\* ... and two model variables named like the two halves of one split ($px and $mx) would be merged
 Names(ev) == {ev.vars[i].name : i \in 1..NV(ev)}
-SplitPair(ev) == \E r \in Names(ev) \cup {"x", "y", "z"} : ("$p" \o r) \in Names(ev) /\ ("$m" \o r) \in Names(ev)
 Accepts(ev) == \* does this entry point accept the model at all?
    CASE ev.entry \in {"milp", "auto"} -> TRUE
      [] ev.entry = "real_microlp" -> ev.sense # "sat" /\ \A i \in 1..NV(ev) : ev.vars[i].kind \in {"real", "nnreal"}
@@ -165,7 +163,7 @@ Accepts(ev) == \* does this entry point accept the model at all?
 SimplexBased(ev) == ev.entry \notin {"clarabel", "text_clarabel"}
 \* the tableau entry MAY refuse a model whose variables are named like its own columns (it does, with a
 \* plain error); an answer it gives for such a model is judged like any other
-MayRefuse(ev) == ev.entry = "simplex" /\ (SplitPair(ev) \/ \E i \in 1..NV(ev) : ev.vars[i].name \in ReservedNames(ev))
+MayRefuse(ev) == ev.entry = "simplex" /\ \E i \in 1..NV(ev) : ev.vars[i].name \in ReservedNames(ev)
 \* for a satisfy model only feasibility is judged
 ValueOk(ev, v) ==
    IF ev.sense = "sat" THEN TRUE
